@@ -1573,6 +1573,21 @@ class Inliner:
         if not ok:
             return None
         body = nest_early_exits(body)
+        if kind == "expr" and len(body) >= 2 and isinstance(body[-1], ast.Return) and (body[-1].value is None or isinstance(body[-1].value, ast.Constant)) and isinstance(body[-2], (ast.For, ast.While)):
+            body = body[:-1]  # the value is not used at this call site
+        if not _tail_returns_only(body) and kind == "expr" and body and isinstance(body[-1], (ast.For, ast.While)) and not body[-1].orelse \
+                and not any(_has_return(s_) for s_ in body[:-1]) and all(r_.value is None or isinstance(r_.value, ast.Constant) for r_ in _returns_in(body[-1])):
+            # a procedure that ends in a loop and leaves it by a plain `return`: at the call site that is a `break`
+            lp_ = body[-1]
+            inner_ = [n_ for b_ in lp_.body for n_ in _walk_same_function(b_) if isinstance(n_, (ast.For, ast.While))]
+            if not any(_has_return(n_) for n_ in inner_):
+                class R_(ast.NodeTransformer):
+                    def visit_Return(self_, node):
+                        return ast.copy_location(ast.Break(), node)
+
+                    def visit_FunctionDef(self_, node):
+                        return node
+                lp_.body = [R_().visit(b_) for b_ in lp_.body]
         if not _tail_returns_only(body):
             # search loop: `for ...: if c: return X` followed by `return D` (or nothing): the returns become `v = X; break`
             body2 = self._search_loop(body, kind, target, stmt)
